@@ -3,7 +3,7 @@ from fractions import Fraction
 import numpy as np
 from ..runner import Acc, HarnessError
 from ..refmodel import Fmt, add_fmt, mul_fmt, quantize_code
-from ..common import Fxp, fx, codes, flags, fmt_of, reset_class_state, obs
+from ..common import Fxp, fx, codes, flags, fmt_of, reset_class_state, obs, build
 
 ID = 'C07'
 RULE = ('cases = (format pair, operator, call route, code pair) executed with broadcasting (column x row of codes) and as scalars; the result '
@@ -40,25 +40,27 @@ def expected(op, fxm, fym, a, b):
     return fz, r
 
 
-def judge_pair(acc, fxm, fym, xs, ys, op, route, shape_mode, part):
+def judge_pair(acc, fxm, fym, xs, ys, op, route, shape_mode, part, by='raw'):
     """x: codes xs, y: codes ys; shape_mode: 'outer' (n,1)x(1,m) | 'vec_scalar' (n,)x() | 'scalar_vec' ()x(m,) | 'scalar' ()x()"""
-    case = {'part': part, 'fx': list(fxm), 'fy': list(fym), 'xs': list(xs), 'ys': list(ys), 'op': op, 'route': route, 'shape': shape_mode}
+    case = {'part': part, 'fx': list(fxm), 'fy': list(fym), 'xs': list(xs), 'ys': list(ys), 'op': op, 'route': route, 'shape': shape_mode,
+            'by': by}
     if shape_mode == 'outer':
-        xa, ya = np.array(xs, dtype=np.int64).reshape(-1, 1), np.array(ys, dtype=np.int64).reshape(1, -1)
+        shx, shy = (len(xs), 1), (1, len(ys))
         pairs = [(a, b) for a in xs for b in ys]
         eshape = (len(xs), len(ys))
     elif shape_mode == 'vec_scalar':
-        xa, ya = np.array(xs, dtype=np.int64), ys[0]
+        shx, shy = (len(xs),), ()
         pairs = [(a, ys[0]) for a in xs]
         eshape = (len(xs),)
     elif shape_mode == 'scalar_vec':
-        xa, ya = xs[0], np.array(ys, dtype=np.int64)
+        shx, shy = (), (len(ys),)
         pairs = [(xs[0], b) for b in ys]
         eshape = (len(ys),)
     else:
-        xa, ya = xs[0], ys[0]
+        shx, shy = (), ()
         pairs = [(xs[0], ys[0])]
         eshape = ()
+    acc.dim('built_by', by, len(pairs))
     acc.evaluations += len(pairs)
     acc.transitions += 1
     acc.dim('op', op, len(pairs))
@@ -67,8 +69,8 @@ def judge_pair(acc, fxm, fym, xs, ys, op, route, shape_mode, part):
     mixed = fxm.signed != fym.signed or fxm.n_frac != fym.n_frac
     acc.nontrivial += sum(1 for a, b in pairs if mixed or a in (fxm.lo, fxm.hi) or b in (fym.lo, fym.hi))
     try:
-        x = Fxp(xa, fxm.signed, fxm.n_word, fxm.n_frac, raw=True)
-        y = Fxp(ya, fym.signed, fym.n_word, fym.n_frac, raw=True)
+        x = build(fxm, xs, shx, by)
+        y = build(fym, ys, shy, by)
         ox, oy = obs(x), obs(y)
         z = apply(op, route, x, y)
         got = codes(z)
@@ -257,6 +259,7 @@ def run_shard(sh):
             for op in OPS:
                 for route in (ROUTES[:1] if big else ROUTES):
                     judge_pair(acc, fxm, fym, xs, ys, op, route, 'outer', 'a')
+                judge_pair(acc, fxm, fym, xs, ys, op, 'operator', 'outer', 'a', 'value')
                 if big:
                     continue
                 judge_pair(acc, fxm, fym, xs, [ys[0]], op, 'operator', 'vec_scalar', 'a')
@@ -348,7 +351,7 @@ def replay(case):
         except Exception as e:
             acc.violation('exception', case, repr(e), {'part': 'T', 'op': op})
     else:
-        judge_pair(acc, Fmt(*case['fx']), Fmt(*case['fy']), case['xs'], case['ys'], case['op'], case['route'], case['shape'], case['part'])
+        judge_pair(acc, Fmt(*case['fx']), Fmt(*case['fy']), case['xs'], case['ys'], case['op'], case['route'], case['shape'], case['part'], case.get('by', 'raw'))
     return acc.violations
 
 
